@@ -5,8 +5,8 @@ Written from the specification; does not import pkgcore.
 
 import re
 
-VERSION_RE = re.compile(r"^(\d+)((?:\.\d+)*)([a-z]?)((?:_(?:alpha|beta|pre|rc|p)\d*)*)$")
-SUFFIX_RE = re.compile(r"_(alpha|beta|pre|rc|p)(\d*)")
+VERSION_RE = re.compile(r"^([0-9]+)((?:\.[0-9]+)*)([a-z]?)((?:_(?:alpha|beta|pre|rc|p)[0-9]*)*)\Z")
+SUFFIX_RE = re.compile(r"_(alpha|beta|pre|rc|p)([0-9]*)")
 SUFFIX_RANK = {"alpha": 0, "beta": 1, "pre": 2, "rc": 3, "p": 5}
 NO_SUFFIX_RANK = 4
 
@@ -17,7 +17,7 @@ def valid_version(v):
 
 def valid_revision(r):
     """r is the digits after '-r', or ''/None for absent."""
-    return r is None or r == "" or (isinstance(r, str) and r.isdigit())
+    return r is None or r == "" or (isinstance(r, str) and r.isascii() and r.isdigit())
 
 
 def split_version(v):
